@@ -35,13 +35,14 @@ func init() {
 	kit.Register(&kit.Check{
 		Prop: "C01", Name: "forge", World: "CHAIN+FORGE", Level: "exploration",
 		Rule: "The acceptance function (ucon.Server.verifyHeader -> verifyConsensusFieldMain -> verifyVotes) has no schedule in it; " +
-			"the simulation contributes the Byzantine party and realistic material, nothing more. Per run: 4-9 genesis validators (seeded stakes, optional whale, some Offline, some role House), " +
+			"the simulation contributes the Byzantine party and realistic material, nothing more. Per run: 4-9 genesis validators (seeded stakes, optional whale, optional minimum-stake validator, some Offline, some role House; in a quarter of the runs one silent validator registered with a rogue BLS key), " +
 			"protocol committee size T in {2000,1000,300,100,40} and proposer threshold in {26,6,2} installed in params.Versions (the protocol table in force), " +
 			"a real chain of 0-20 honest blocks built by the real miner.worker/txpool/staking over the forge engine (seed look-back 8 / stake look-back 16: both sides of each look-back edge are covered), imported by two verifying nodes (un-started ucon.Server + BlockChain). " +
 			"For the next block the forge makes the honest material (proposer credential, every precommit with real VRF sortition proof and BLS signature, honest sealed block); a block forger holding a seeded subset of the validator keys derives forgeries, " +
 			"each constructed so that the LEGITIMATE weight (distinct online chamber members of the look-back set, proof valid for this round/index/step Precommit, signature over this header hash) is below floor(T*685/1000) by construction " +
 			"(or the proposer credential / aggregate signature is illegitimate by construction) and compensated by exactly one class of illegitimate material: duplicated entries, second proof of the same signer, votes replayed from another round / round index / step / block hash, " +
 			"non-member index, index of another member, outsider key, offline signer, House signer, inflated Votes, zero-seat voter, aggregate of a subset / garbage / empty / other message, a lone quorum-sized vote with a foreign signature, votes in the House section, garbage vote section, " +
+			"a validator registered with a rogue BLS public key (g^x minus the other voters' keys) that signs alone for credentials the honest voters revealed for another block, " +
 			"author-lowered ValidatorThreshold (0,1,2,3,5,10,100,T/2; with and without votes), author-raised ProposerThreshold, zero-seat proposer, credential for another index, header or credential signed by another key, outsider proposer, inflated SubUsers, wrong priority, and combinations of two vote-level classes. " +
 			"Positive controls every run: the honest block; a random super-quorum subset; a vote subset whose weight is exactly the quorum (subset-sum over all subsets and up to 24 round indexes; closest if no exact hit, counted by probes) and one with weight quorum-1 (must be rejected). " +
 			"Every header is offered to the real verifier through Server.VerifyHeader(chain,header,true) (what the block fetcher calls), Server.VerifySeal, Server.VerifySideChainHeader with explicitly supplied look-back header and validator reader, " +
@@ -57,7 +58,7 @@ func init() {
 		FaultsNotInjected: []string{"message loss/reorder, crash/restart, clock faults: the acceptance function is a pure function of (header, look-back state, protocol table); nothing is in flight",
 			"expelled validators: need a slashing history; an expelled validator is also set Offline by the staking module, which the offline-signer class covers",
 			"certificate sections (ChamberCerts of certificate rounds): params.ACoCHTFrequency = 32768 is a constant, no chain in this world reaches it; VerifyAcHeader is not exercised",
-			"BLS rogue-key registration (a validator registering a crafted BLS public key): needs the staking transaction path, not part of the header-level forger"},
+			"registration of the rogue BLS key through a staking transaction: the crafted key is placed in the genesis validator set instead (TxCreateValidator.Validate, staking/types.go:142, checks only that the key is non-empty)"},
 		Assumptions: []string{"a vote index (UconValidators.RoundIndex) later than the proposal's own round index is treated as legitimate (marked-block carry-over of the live protocol); it is offered as an observation, not judged",
 			"an Offline or House PROPOSER is offered as an observation only: the property restricts voters to online chamber members but only requires the proposer credential to verify under the protocol threshold",
 			"for a header whose author declared another committee size the legitimate weight is counted leniently (the listed voters' seats under the PROTOCOL committee size, although the entries claim the seats of the declared size); the forgery is built so that even this is below the quorum",
